@@ -161,6 +161,31 @@ func c05Scenarios(tier string) []e1lib.Scenario {
 			}
 		}
 	}
+	// the same stages under context.Background(): a context that is never cancelled and whose Done() is nil
+	for _, st := range []string{"map", "fmap", "filter", "takewhile", "take", "partition", "fold", "foreach"} {
+		for k := 0; k <= 2; k++ {
+			for cp := 0; cp <= 1; cp++ {
+				c := stage.Cfg{Stage: st, K: k, N: k, Cap: cp, Stop: -1, Stop2: -1, Background: true, Mode: "pure"}
+				switch st {
+				case "fmap":
+					c.Mode = "lift"
+					add(c)
+				case "filter", "takewhile", "partition":
+					for m := 0; m < 1<<k; m++ {
+						c.Mask = m << 1
+						add(c)
+					}
+				case "take":
+					for n := 0; n <= k+1; n++ {
+						c.N = n
+						add(c)
+					}
+				default:
+					add(c)
+				}
+			}
+		}
+	}
 	// element type `any` with nil interface values among the elements (identity functions, always-true predicates)
 	for _, st := range []string{"map", "fmap", "filter", "takewhile", "take", "partition", "seq"} {
 		for k := 0; k <= 3; k++ {
